@@ -300,7 +300,7 @@ def compare_column(exp, got, t, what):
 
 # ---------------------------------------------------------------------------------------------
 # spec encoder (C03): laid-out file descriptions as plain Python data (JSON-able), -> pqref s-expression
-#   lfile = {"leaves": [leaf], "rgs": [[chunk per leaf]], "created_by": str|None}
+#   lfile = {"leaves": [leaf], "rgs": [[chunk per leaf]], "created_by": str|None, "kv": [[key, value|None], ...] (optional)}
 #   leaf  = {"name", "type", "tlen", "optional", "conv", "logical": thrift tree | None, "scale", "precision": int | None}
 #   chunk = {"codec": int, "stats": bool, "items": [item]}
 #   item  = {"dict": enc, "vals": [value]} | {"v2": bool, "n": int, "def": [run], "store": store, "iscomp": None|bool, "trail": hex}
@@ -366,7 +366,11 @@ def encode_file(pq, lf):
         assert CODECS[codec][1](comp, len(raw)) == raw, "cramjam round trip"   # the section hypothesis, checked
         tbl.append([bytes([codec]) + raw, comp])
         dtbl.append([bytes([codec]) + comp, raw])
-    r = pq.call("fmt_encode", sx, tbl)
+    if lf.get("kv"):
+        # FileMetaData.key_value_metadata (Format/EncKV.v): [[key, value | None], ...] as text
+        r = pq.call("fmt_encode_kv", sx, tbl, [[k.encode(), [] if v is None else [v.encode()]] for k, v in lf["kv"]])
+    else:
+        r = pq.call("fmt_encode", sx, tbl)
     if r[0] != b"ok":
         raise RuntimeError("fmt_encode: %r" % (r,))
     return r[1], dtbl
